@@ -151,7 +151,7 @@ Definition run_bzl (user : bool) (sc : script) : outcome := run bzl_flow user sc
 Definition cli_diagnosed (user : bool) (s : stage) (e : ecls) : bool :=
   ending_eqb (o_end (run_cli user (script_of [(s, e)]))) (Exit 1).
 Definition all_stages : list stage := [SInputs; SExtraParams; SConstraints; SBuildRepo; SCompile; SSetupReqs; SWrite].
-Definition handled_classes : list ecls := [EValueError; ERepoInit; ENoCandidate; EMetadata].
+Definition handled_classes : list ecls := [EValueError; ERepoInit; ENoCandidate; EMetadata; EOSError].
 (* the (stage, class) pairs among the handled classes that still end in a traceback *)
 Definition cli_traceback_pairs (user : bool) : list (stage * ecls) :=
   filter (fun p => mem_stage (fst p) (exec_order user (f_items cli_flow)) && negb (cli_diagnosed user (fst p) (snd p)))
